@@ -400,7 +400,8 @@ def handle (j : Json) : Json :=
   let shape := jget j "shape"
   let cls := "status:" ++ (if errs == 0 then "ok" else if errs < 0 then "refused" else "partial") ++
     (if jstr (jget shape "fault") != "" then "+fault" else "") ++
-    (if (jarr (jget shape "start_fail")).length > 0 then "+startfail" else "")
+    (if (jarr (jget shape "start_fail")).length > 0 then "+startfail" else "") ++
+    (if jstr (jget shape "cancel_at") != "" then "+cancel" else "")
   verdict id agree (Json.mkObj [("observations", obs.length)]) viol cls (obs.length < 2)
 
 end DSO
